@@ -14,7 +14,9 @@ from ..core import AnalysisError, Loc, Report, Source, norm
 from ..handlers import FnRef, closure, concrete_handlers, parent_map, stores
 from ..protocol import HandlerProtocol, _is_copy_of
 from ..pyfront import ClassInfo, Program, body_without_docstring, dotted, param_names, self_attr
+from ..guards import atoms, path_conditions
 from ..normalize import canon
+from ..resolve import split_atom
 from ..selftest import Edit
 from ..writers import all_field_writes, taint_from_params
 
@@ -107,8 +109,28 @@ def analyse(src: Source) -> List[Report]:
            "the branch must contain all descendants of the node (recursive construction over children)")
     act = entries[1].fn
     rets = [n for n in ast.walk(act) if isinstance(n, ast.Return)]
-    ok = len(rets) == 1 and isinstance(rets[0].value, ast.ListComp) and "extract_from_global_state" in norm(rets[0].value.elt) \
-        and "yield_independent_lifted_identifiers" in norm(rets[0].value.generators[0].iter)
+    # the returned list holds extract_from_global_state(i) for every independently lifted identifier i, nothing else: written as
+    # a comprehension or as a list filled in a loop over the generator
+    ok = False
+    if len(rets) == 1:
+        rv = rets[0].value
+
+        def per_identifier(elt: ast.AST, var: ast.AST, it: ast.AST, filtered: bool) -> bool:
+            return isinstance(elt, ast.Call) and norm(elt.func).endswith("extract_from_global_state") and len(elt.args) == 1 \
+                and norm(elt.args[0]) == norm(var) and norm(it).endswith("yield_independent_lifted_identifiers()") and not filtered
+        if isinstance(rv, ast.ListComp) and len(rv.generators) == 1:
+            g = rv.generators[0]
+            ok = per_identifier(rv.elt, g.target, g.iter, bool(g.ifs))
+        elif isinstance(rv, ast.Name):
+            inits = [a for a in ast.walk(act) if isinstance(a, ast.Assign) and norm(a.targets[0]) == rv.id]
+            apps = [(lp, c) for lp in ast.walk(act) if isinstance(lp, ast.For) for c in ast.walk(lp) if isinstance(c, ast.Call)
+                    and isinstance(c.func, ast.Attribute) and c.func.attr == "append" and norm(c.func.value) == rv.id]
+            other = [c for c in ast.walk(act) if isinstance(c, ast.Call) and isinstance(c.func, ast.Attribute) and norm(c.func.value) == rv.id
+                     and c.func.attr != "append"]
+            if len(inits) == 1 and isinstance(inits[0].value, ast.List) and not inits[0].value.elts and len(apps) == 1 and not other:
+                lp, c = apps[0]
+                conds = path_conditions(lp.body, c) or []
+                ok = per_identifier(c.args[0], lp.target, lp.iter, bool(conds))
     rep.ob("R13.7-active-part", ok, Loc(file, act.lineno, entries[1].qual), rets[0] if rets else act.name,
            "the active part must be a copied branch for exactly the independently lifted identifiers")
     # ---- R13.7 independent-active rule ---------------------------------------------------------------------------------
@@ -121,11 +143,14 @@ def analyse(src: Source) -> List[Report]:
         ifs = [n for n in ast.walk(yi) if isinstance(n, ast.If) and "number_of_nodes_per_root_node" in norm(n.test)]
         ok = False
         if len(ifs) == 1:
-            t = ifs[0].test
-            then_y = [n for n in ast.walk(ast.Module(body=ifs[0].body, type_ignores=[])) if isinstance(n, ast.Yield)]
-            else_y = [n for n in ast.walk(ast.Module(body=ifs[0].orelse, type_ignores=[])) if isinstance(n, ast.YieldFrom)]
-            ok = isinstance(t, ast.Compare) and isinstance(t.ops[0], ast.Eq) and norm(t.left).startswith("len(") \
-                and len(then_y) == 1 and len(else_y) == 1
+            at = atoms(ifs[0].test)
+            sp = split_atom(at[0]) if len(at) == 1 else None
+            if sp is not None and {sp[0], sp[2]} - {"setting.number_of_nodes_per_root_node"} and sp[1] in ("==", "!="):
+                count = ({sp[0], sp[2]} - {"setting.number_of_nodes_per_root_node"}).pop()
+                all_move, some_move = (ifs[0].body, ifs[0].orelse) if sp[1] == "==" else (ifs[0].orelse, ifs[0].body)
+                then_y = [n for n in ast.walk(ast.Module(body=all_move, type_ignores=[])) if isinstance(n, ast.Yield)]
+                else_y = [n for n in ast.walk(ast.Module(body=some_move, type_ignores=[])) if isinstance(n, ast.YieldFrom)]
+                ok = count.startswith("len(") and len(then_y) == 1 and len(else_y) == 1 and norm(else_y[0].value) == count[4:-1]
         rep.ob("R13.7-independent-rule", ok, Loc(ls.file, yi.lineno, f"{ls.name}.{yi.name}"),
                ifs[0].test if ifs else yi.name,
                "composite object if all of its members move (count == nodes per root), else exactly the moving members")
@@ -275,7 +300,7 @@ def analyse(src: Source) -> List[Report]:
                 rep.ob("R13.6-move-or-copy", moved, Loc(mi.file, stmt.lineno, f"{ci.name}.{fn.name}"), stmt,
                        f"`{norm(recv)}.{field}` aliases `{src_recv}.{field}` without the source being cleared in the same "
                        f"block: two units of an out-state would share one mutable object")
-    rep.expect_min("R13.1-copied-field", 9)
+    rep.expect_min("R13.1-copied-field", 3)
     rep.expect_min("R13.2-read-only-consumer", 6)
     rep.expect_min("R13.3-set-callers", 2)
     rep.expect_min("R13.3-insert-callers", 3)
@@ -287,10 +312,18 @@ def analyse(src: Source) -> List[Report]:
     return [rep]
 
 
-def _bindings_on_path(prog: Program, sh: ClassInfo, reach: List[FnRef], ref: FnRef, pname: str) -> Set[str]:
-    """How is parameter `pname` of ref bound at the call sites located in functions of the extraction path?"""
+def _bindings_on_path(prog: Program, sh: ClassInfo, reach: List[FnRef], ref: FnRef, pname: str, seen: Optional[Set[Tuple[str, str]]] = None) -> Set[str]:
+    """
+    How is parameter `pname` of ref bound at the call sites located in functions of the extraction path?  A caller that passes
+    one of its own parameters through is followed to its callers (transitively).
+    """
+    seen = seen if seen is not None else set()
+    if (ref.fn.name, pname) in seen:
+        return set()
+    seen.add((ref.fn.name, pname))
     ps = [a.arg for a in ref.fn.args.args]
     idx = ps.index(pname) - 1  # minus self
+    defaults = ref.fn.args.defaults
     out: Set[str] = set()
     for caller in reach:
         for c in ast.walk(caller.fn):
@@ -304,8 +337,10 @@ def _bindings_on_path(prog: Program, sh: ClassInfo, reach: List[FnRef], ref: FnR
                         val = k.value
                 if val is None:
                     out.add("<default>")
-                elif isinstance(val, ast.Name) and val.id == pname and caller.fn is ref.fn:
-                    continue  # recursion passes the parameter through
+                elif isinstance(val, ast.Name) and val.id in [a.arg for a in caller.fn.args.args]:
+                    if caller.fn is ref.fn and val.id == pname:
+                        continue  # recursion passes the parameter through
+                    out |= _bindings_on_path(prog, sh, reach, caller, val.id, seen)
                 else:
                     out.add(norm(val))
     return out
